@@ -954,6 +954,33 @@ func (d *Driver) end(j *job) {
 		writeFile(path.Join(md, "_outs"), b)
 		writeFile(path.Join(md, "_complete"), []byte("done"))
 		d.journal(j, "complete")
+	case "stale-collection":
+		// the outputs are unusable (a scalar output has the wrong JSON type) and, this
+		// time, every array the stage returns has one element more than it will have once
+		// the fault is gone: what the failed attempt left behind must not be used
+		outs, _ := Untag(j.inv.Outs)
+		if m, ok := outs.(map[string]interface{}); ok {
+			spoiled := false
+			for _, k := range SortedKeys(m) {
+				switch v := m[k].(type) {
+				case []interface{}:
+					if len(v) > 0 {
+						m[k] = append(append([]interface{}{}, v...), v[len(v)-1])
+					} else {
+						m[k] = []interface{}{float64(99)}
+					}
+				case float64, string, bool:
+					if !spoiled {
+						m[k] = map[string]interface{}{"not": "the declared type"}
+						spoiled = true
+					}
+				}
+			}
+		}
+		b, _ := json.Marshal(outs)
+		writeFile(path.Join(md, "_outs"), b)
+		writeFile(path.Join(md, "_complete"), []byte("done"))
+		d.journal(j, "complete")
 	case "stale-defs":
 		// the split leaves a well-formed _stage_defs (with more chunks than it will
 		// produce once the fault is gone) and then fails
